@@ -487,9 +487,33 @@ def iteration_ops(E, it, noserial=False):
         op("cfin %d %s | %s" % (cur.get(th, -1), " ".join(str(x) for x in sizes), " ".join(str(x) for x in fl)),
            "cfin left=%s flush=%d" % ("*" if noserial else str(left), len(fl)))
         acc[th] = []
+    def commit_pc(idx, v):
+        if noserial and any(r[0] == "PK" for r in acc.get(v[0], [])):
+            # this task saw the counter at zero and creates the flush tasks: every other continuous source task
+            # has done its subtraction before (only its record may come later) -> their commits come first
+            for j in range(idx + 1, len(ev)):
+                if ev[j][0] == "PC" and j not in pulled and ev[j][1][0] != v[0]:
+                    pulled.add(j)
+                    emit_pc(ev[j][1])
+                elif ev[j][0] == "PE":
+                    break
+        emit_pc(v)
     for idx, (k, v) in enumerate(ev):
         if idx in pulled:
             continue
+        if noserial and k == "PA":
+            # a flush task can be taken as soon as it is in the queue (its PK record), before the creating task has
+            # written its commit record PC: that commit (whose data are fixed since the subtraction) comes first
+            for th2, recs in list(acc.items()):
+                if th2 != v[0] and any(r[0] == "PK" and r[1][1] == v[1] and r[1][2] == E["TASKTYPE_FLUSH_CONTINUOUS_PHOTON_BUFFERS"] for r in recs):
+                    for j in range(idx + 1, len(ev)):
+                        if ev[j][0] == "PK" and j not in pulled and ev[j][1][0] == th2:
+                            pulled.add(j)          # the remaining flush tasks of the same commit
+                            acc[th2].append(ev[j])
+                        elif ev[j][0] == "PC" and j not in pulled and ev[j][1][0] == th2:
+                            pulled.add(j)
+                            commit_pc(j, ev[j][1])
+                            break
         if k == "PT":
             if v[1] == E["TASKTYPE_SOURCE_DISCRETE_PHOTON"]:
                 op("launch %d %d" % (v[0], v[2]), "launch source %d %d queued" % (v[2], v[3]))
@@ -562,16 +586,7 @@ def iteration_ops(E, it, noserial=False):
             op("cover %d %d %d %d" % (cur.get(th, -1), g, bid, t2), "cover buf=%d task=traverse %d %d queued" % (bufsz, g, bid))
             qbind(th, bid)
         elif k == "PC":
-            if noserial and any(r[0] == "PK" for r in acc.get(v[0], [])):
-                # this task saw the counter at zero and creates the flush tasks: every other continuous source task
-                # has done its subtraction before (only its record may come later) -> their commits come first
-                for j in range(idx + 1, len(ev)):
-                    if ev[j][0] == "PC" and j not in pulled and ev[j][1][0] != v[0]:
-                        pulled.add(j)
-                        emit_pc(ev[j][1])
-                    elif ev[j][0] == "PE":
-                        break
-            emit_pc(v)
+            commit_pc(idx, v)
         elif k == "PL":
             th, blk, g, cnt, bid, t2, q = v
             op("fone %d %d %d %d" % (cur.get(th, -1), g, bid, t2), "fone buf=%d task=traverse %d %d queued" % (cnt, g, bid))
@@ -661,7 +676,8 @@ def parse_kv(line):
 def dps_stream(ctx, harness):
     cases = dps_ops(ctx)
     ops = [c[0] for c in cases]
-    rc, out, err = vlib.run_exe(harness, "\n".join(ops) + "\n")
+    # one OpenMP thread: the harness builds thousands of tiny grids, a thread team per grid only costs time
+    rc, out, err = vlib.run_exe(harness, "\n".join(ops) + "\n", env={"OMP_NUM_THREADS": "1"})
     impl, orc = vlib.split_oracle(out)
     st = ctx.cov["correspondence_streams"].setdefault("dps", {"lines": 0, "mismatches": 0, "oracle_failures": 0})
     st["lines"] += len(ops)
@@ -745,8 +761,8 @@ def dps_stream(ctx, harness):
 
 JITTERS_TRACE = ["verif_lock=300=2000,cas_lock=20=1500", "verif_lock=600=3000,cas_lock=40=2500,cas_unlock=10=500",
                  "verif_lock=150=800,post_increment=100=300,pre_add=300=1500"]
-JITTERS_NOSERIAL = ["verif_lock=300=1500,cas_lock=20=1500,pre_add=200=800", "verif_lock=500=2500,cas_lock=30=2000,cas_unlock=10=500,load=2=300",
-                    "verif_lock=200=1000,pre_add=400=1500,pre_subtract=500=2000,post_increment=100=300,load=1=200"]
+JITTERS_NOSERIAL = ["verif_lock=300=1500,cas_lock=20=1500,pre_add=200=800,store=100=800", "verif_lock=500=2500,cas_lock=30=2000,cas_unlock=10=500,load=2=300",
+                    "verif_lock=200=1000,pre_add=400=1500,pre_subtract=500=2000,post_increment=100=300,load=1=200,store=200=1000"]
 JITTERS_PLAIN = ["pre_subtract=1000=3000,cas_lock=30=4000", "pre_subtract=700=2000,cas_lock=60=2000,cas_unlock=20=1000",
                  "pre_add=500=2000,cas_lock=40=3000,pre_subtract=500=1500"]
 
@@ -955,7 +971,12 @@ def run(ctx):
         "--task-plot is off (otherwise tasks are deliberately kept until the end of the iteration)",
         "the photon loop of TaskBasedRadiationHydrodynamicsSimulation.cpp is covered at the protocol level (no continuous source => no task can be obtained after the flag was cleared, theorem after_termination_only_packet_free_tasks); its traces are not replayed in the quick tier",
     ]
+    import time
+    t0 = time.time()
+    phase = {}
     ok = ctx.obligations("CMacVerif.Props.C01", ["drv_c01"])
+    phase["lean"] = round(time.time() - t0, 1)
+    t0 = time.time()
     E = simrun.enums()
     if E.get("PHOTONBUFFER_SIZE") != 200:
         ctx.broken_obligation("PHOTONBUFFER_SIZE is %r in the code but 200 in the Lean model (Photon.BUFSZ)" % E.get("PHOTONBUFFER_SIZE"))
@@ -967,8 +988,12 @@ def run(ctx):
                        "diffuse field on/off, N in {1,2,7,199,200,201,399,400,401,600,1000,1234,2001,3217}, 1..3 iterations, 1/2/4/8 threads), every trace record replayed through Photon.step; "
                        "jitter: the same with seeded delays at the H1 yield points, traced (serialised and, with 4/8/16 threads, NON-serialised: CMAC_VERIF_NOSERIAL=1) and untraced; distinct = (layout, periodicity, N, copy level, source mix, diffuse, threads, jitter); "
                        "non-trivial = more than one subgrid, or diffuse field, or more than one buffer of packets" % ctx.budget(3, 4))
+    phase["build"] = round(time.time() - t0, 1)
+    t0 = time.time()
     if ok:
         dps_stream(ctx, harness)
+    phase["dps"] = round(time.time() - t0, 1)
+    t0 = time.time()
     jobs = make_jobs(ctx)
     for j in jobs:
         j["timeout"] = 90 if j.get("jitter") else 60
@@ -995,8 +1020,12 @@ def run(ctx):
                 run_and_check(ctx, E, binary, j, drv_jobs)
     if skipped:
         ctx.notes.append("%d of %d runs skipped after the first violations" % (skipped, len(jobs)))
+    phase["runs"] = round(time.time() - t0, 1)
+    t0 = time.time()
     if ok:
         replay_traces(ctx, drv_jobs)
+    phase["replay"] = round(time.time() - t0, 1)
+    ctx.notes.append("wall time per phase (s): " + ", ".join("%s %s" % kv for kv in phase.items()))
     missing = [b for b in EXPECTED_BRANCHES if b not in ctx.cov["branch_histogram"]]
     ctx.cov["branches_not_reached"] = missing
     if missing and ctx.thorough:
